@@ -1,4 +1,4 @@
-From VP Require Import Base.Tactics Ctx.Model Ctx.Run Ctx.Proofs Ctx.ProofsLive Ctx.ProofsRun Ctx.Props.
+From VP Require Import Base.Tactics Ctx.Model Ctx.Run Ctx.Proofs Ctx.ProofsLive Ctx.ProofsCut Ctx.ProofsRun Ctx.Props.
 
 Check (C26_delivery : forall cfg sched s,
   mode cfg = Block -> run cfg init sched = Some s ->
@@ -24,6 +24,12 @@ Check (C26_no_deadlock_acyclic : forall cfg sched s c,
   1 <= cap cfg -> ranked cfg -> run cfg init sched = Some s ->
   c < n_ctx cfg -> has_work s c -> exists c', c' < n_ctx cfg /\ can_step cfg s c').
 Print Assumptions C26_no_deadlock_acyclic.
+
+Check (C26_two_consumers_refuted : exists cfg sched s e x,
+  mode cfg = Block /\ Known_C26_two_consumers (prog cfg) = true /\
+  run cfg init (Ingress e :: sched) = Some s /\ quiescent (n_ctx cfg) s /\
+  In x (engine (prog cfg) e) /\ ~ In x (output s)).
+Print Assumptions C26_two_consumers_refuted.
 
 Check (C26_macro_steps_are_schedules : forall cfg fuel ms s store os ls s' store',
   forallb (fun m => negb (is_restore m)) ms = true ->
